@@ -734,3 +734,65 @@ def m_sort(m, c, a):
     vals = sorted([x.v for x in cells], key=lambda s: as_rstr(s).concrete())
     for cell, val in zip(cells, vals): cell.v = val
     return UNIT
+
+
+# ------------------------------------------------------------------ drop glue, time, timer, env, split
+
+@model(re.compile(r'^<.* as Drop>::drop$'), 'mem::drop')
+def m_drop_noop(m, c, a):
+    # explicit drop of a Box / value: release RefCell guards inside it, nothing else to do in this heap model
+    for x in a: m.do_drop(x)
+    return UNIT
+
+
+@model('Duration::from_millis')
+def m_dur_ms(m, c, a): return Agg('Duration', None, None, [a[0]])
+
+
+@model('Duration::as_secs', 'Duration::subsec_nanos')
+def m_dur_zero(m, c, a): return 0
+
+
+@model('Instant::elapsed')
+def m_elapsed(m, c, a): return Agg('Duration', None, None, [0])
+
+
+@model('ThreadTimer::new')
+def m_tt_new(m, c, a): return Agg('ThreadTimer', None, None, [])
+
+
+@model('ThreadTimer::start')
+def m_tt_start(m, c, a):
+    # the closure may run at any later observation of the stop flag; the harness picks the point (stop_countdown)
+    m.timer = {'closure': a[2], 'armed': True}
+    return ok(UNIT)
+
+
+@model('ThreadTimer::cancel')
+def m_tt_cancel(m, c, a):
+    if m.timer is not None: m.timer['armed'] = False
+    return ok(UNIT)
+
+
+@model('env::var', 'var')
+def m_env_var(m, c, a): return err(Agg('VarError', 'NotPresent', 0, []))
+
+
+@model('str::split')
+def m_split(m, c, a):
+    s, pat = as_rstr(a[0]).chars, as_rstr(a[1]).chars
+    if not pat: raise Unsupported('split on empty pattern')
+    parts, cur, i = [], [], 0
+    n, k = len(s), len(pat)
+    while i < n:
+        if i + k <= n and str_eq(m, RStr(s[i:i + k]), RStr(pat)):
+            parts.append(cur); cur = []; i += k
+        else:
+            cur.append(s[i]); i += 1
+    parts.append(cur)
+    return IterV('own', [Cell(StrRef(RStr(p))) for p in parts])
+
+
+@model('str::to_uppercase')
+def m_upper(m, c, a):
+    return RStr([ch.upper() if isinstance(ch, str) else ch for ch in as_rstr(a[0]).chars])
